@@ -64,6 +64,11 @@ def gen_cases(seed, tier):
                 if tier == 'quick' and radix in (2, 7) and k % 3:
                     continue
                 cs.append(('str', radix, tostr(sign * m, radix, upper=(k % 2 == 0))))
+    # the same literal text read in different radixes back to back (and twice in the same radix): the result must depend
+    # on (text, radix) only, never on what was converted just before
+    for text in ('10', '11', '101', '100', '110011', '1000000000000000000000000000000001', '-101', '-10000000000000000000000000000000000000000000000000000000000000001', '0', '-1'):
+        for radix in (10, 16, 2, 36, 7, 10, 10, 2):
+            cs.append(('str', radix, text))
     return cs
 
 
@@ -133,7 +138,19 @@ def run(tier, seed, replay=None):
         if v2['rejected']:
             ck.violation(key, 'recorded conversion result contradicts the definition: %s' % json.dumps(vlib.compact(rec))[:300], dict(cases=[list(case)], event=rec))
         else:
-            ck.note('rejection at event %d not reproduced on re-run; ignored' % idx)
+            # not reproducible in isolation: replay the process history up to and including the case and judge its events
+            ci = rec.get('ci', 1)
+            write_cases(c2, cases[:ci]); sh([exe, c2, t2], timeout=300)
+            keep = [ln for ln in open(t2).read().split('\n') if ln.strip() and json.loads(ln).get('ci') == ci]
+            t3 = os.path.join(wd, 'confirm_last.ndjson')
+            open(t3, 'w').write('\n'.join(keep) + '\n')
+            v3 = validate_trace(wd, 'Trace_Conv', 'Trace_Conv.cfg', t3, nsplit=1)
+            if v3['rejected']:
+                ck.violation(key + ' (history-dependent: wrong only after the preceding conversions in the same process)',
+                             'correct in a fresh process, wrong after the recorded prefix of %d calls: %s' % (ci - 1, json.dumps(vlib.compact(rec))[:300]),
+                             dict(cases=[list(c) for c in cases[:ci]], event=rec))
+            else:
+                ck.note('rejection at event %d not reproduced on re-run (neither alone nor after its history); ignored' % idx)
     ck.cov['cases'] = len(cases)
     ck.cov['rejected_records'] = len(v['rejected'])
     return ck.finish()
